@@ -119,7 +119,7 @@ func runC11(c *core.Ctx) {
 	inter, _ := gen.NewCA(gen.CertSpec{CN: "c11-inter"}, root)
 	cas := []*gen.CA{root, inter}
 	n := c.Pick(800, 15000)
-	byteEq, errorsOK, dsseOK, injective, reuseOK := int64(0), int64(0), int64(0), int64(0), int64(0)
+	byteEq, errorsOK, dsseOK, injective, reuseOK, readOnlyOK, nilOK := int64(0), int64(0), int64(0), int64(0), int64(0), int64(0), int64(0)
 	extraKey := gen.Mixed(pool, 5)[4].Pub
 	for i := 0; i < n; i++ {
 		if !c.Mine(i) {
@@ -241,6 +241,90 @@ func runC11(c *core.Ctx) {
 				dsseOK++
 			}
 		}
+		// ---- read-only calls between two uses must not change what is signed ------
+		{
+			key := keys[i%len(keys)]
+			mbv := &intoto.Metablock{Signed: v.payload}
+			var b0, b1 []byte
+			var ev error
+			envBefore, _ := json.Marshal(env.GetPayload())
+			if !c.Guard(id, "ValidateMetablock between uses", detail, func() {
+				if mbv.Sign(key.Priv) != nil {
+					return
+				}
+				b0, _ = mbv.GetSignableRepresentation()
+				intoto.ValidateMetablock(*mbv)
+				intoto.ValidateMetablock(intoto.Metablock{Signed: env.GetPayload()})
+				mbv.GetPayload()
+				mbv.Sigs()
+				b1, _ = mbv.GetSignableRepresentation()
+				ev = mbv.VerifySignature(key.Pub)
+			}) && b0 != nil {
+				c.Eval(1)
+				envAfter, _ := json.Marshal(env.GetPayload())
+				switch {
+				case !bytes.Equal(b0, b1) || !bytes.Equal(b1, want):
+					c.Violation("a read-only call (ValidateMetablock / GetPayload / Sigs) changed the bytes that are signed ("+firstDiff(b1, want)+")", id, map[string]any{"kind": v.kind, "value": json.RawMessage(treeJSON), "before": string(b0), "after": string(b1)})
+				case ev != nil:
+					c.Violation("signature no longer verifies on the signing object after read-only calls: "+core.MsgClass(ev.Error()), id, detail)
+				case !bytes.Equal(envBefore, envAfter):
+					c.Violation("a read-only call (ValidateMetablock on the payload handed out by GetPayload) changed the payload object of the envelope", id, map[string]any{"before": string(envBefore), "after": string(envAfter)})
+				default:
+					readOnlyOK++
+				}
+			}
+		}
+		// ---- absent (nil) collections: written as null, must load back and verify ---
+		if i%5 == 2 {
+			var p2 any
+			switch p := v.payload.(type) {
+			case intoto.Link:
+				p.Command, p.Materials, p.ByProducts = nil, nil, nil
+				p2 = p
+			case intoto.Layout:
+				p.Inspect = nil
+				steps := append([]intoto.Step{}, p.Steps...)
+				for j := range steps {
+					steps[j].ExpectedCommand, steps[j].ExpectedMaterials, steps[j].PubKeys = nil, nil, nil
+				}
+				p.Steps = steps
+				p2 = p
+			}
+			key := keys[i%len(keys)]
+			for _, dsse := range []bool{false, true} {
+				what := fmt.Sprintf("%s with absent collections, dsse=%v", v.kind, dsse)
+				md, err := gen.NewMeta(p2, dsse)
+				if err != nil {
+					c.Violation("metadata with absent collections cannot be wrapped: "+core.MsgClass(err.Error()), id, what)
+					continue
+				}
+				fp := filepath.Join(c.WorkDir, "nilcoll.json")
+				var e1, e2, e3 error
+				var back intoto.Metadata
+				if c.Guard(id, "Sign/Dump/Load with absent collections", what, func() {
+					e1 = md.Sign(key.Priv)
+					e2 = md.Dump(fp)
+					back, e3 = intoto.LoadMetadata(fp)
+				}) {
+					continue
+				}
+				c.Eval(1)
+				raw, _ := os.ReadFile(fp)
+				d3 := map[string]any{"what": what, "file": string(raw)}
+				switch {
+				case e1 != nil || e2 != nil:
+					c.Violation("metadata with absent collections cannot be signed / written", id, d3)
+				case e3 != nil:
+					c.Violation("the library cannot load what it wrote for metadata with absent collections: "+core.MsgClass(e3.Error()), id, d3)
+				case normJSON(back.GetPayload()) != normJSON(p2):
+					c.Violation("metadata with absent collections decodes to other metadata than was set", id, d3)
+				case back.VerifySignature(key.Pub) != nil:
+					c.Violation("signature over metadata with absent collections does not verify after dump and load", id, d3)
+				default:
+					nilOK++
+				}
+			}
+		}
 		// ---- re-used objects: metadata changed in place after a first use -------
 		if v2, what, ok := c11EditInPlace(v, i, extraKey); ok {
 			detail2 := map[string]any{"kind": v.kind, "value": json.RawMessage(treeJSON), "changed_in_place": what}
@@ -308,6 +392,8 @@ func runC11(c *core.Ctx) {
 	c.Obs("dsse_payload_valid_and_roundtrips", dsseOK)
 	c.Obs("single_edit_variants_distinct", injective)
 	c.Obs("reused_objects_follow_in_place_changes", reuseOK)
+	c.Obs("read_only_calls_left_signed_bytes_alone", readOnlyOK)
+	c.Obs("absent_collections_roundtrip", nilOK)
 }
 
 // c11Edit is a change made in place (inside a map or slice the first payload shares) after the
@@ -433,12 +519,12 @@ func init() {
 	core.Register(&core.Property{
 		ID:    "C11",
 		Level: "exploration",
-		Rule: "seeded links and layouts with every field populated (strings over an alphabet with quotes, backslashes, all kinds of control characters, DEL, U+2028, <>&, non-ASCII, astral and combining characters; nested by-product/environment values: maps, lists, ints, bools, null, integral and non-integral floats; certificate constraints and CA maps present or absent), rendered in parallel as library structs and as a generic tree with the member names of the in-toto specification. Checks per value: byte equality of GetSignableRepresentation with the reference OLPC canonicalisation; 6 re-serialisations of the file (shuffled member order, random whitespace, alternative spellings of integral numbers) give the same bytes; every single-leaf edit gives different bytes (collision set); non-integral numbers are refused; DSSE: SetPayload/Sign/Dump, payload strictly valid JSON, decodes to the set value, LoadMetadata returns the set value and verifies. Re-used objects: after a first Sign+Verify (Metablock) / SetPayload+Sign+Dump (Envelope) the metadata is changed in place through a map or slice it shares with the caller (new product path, new by-product, pubkeys[0], new layout key); the signed bytes must be the canonical JSON of the changed content, the old signature must not verify any more, a new one must verify on a reloaded copy, and a second SetPayload on the same envelope must carry the changed content. " +
+		Rule: "seeded links and layouts with every field populated (strings over an alphabet with quotes, backslashes, all kinds of control characters, DEL, U+2028, <>&, non-ASCII, astral and combining characters; nested by-product/environment values: maps, lists, ints, bools, null, integral and non-integral floats; certificate constraints and CA maps present or absent), rendered in parallel as library structs and as a generic tree with the member names of the in-toto specification. Checks per value: byte equality of GetSignableRepresentation with the reference OLPC canonicalisation; 6 re-serialisations of the file (shuffled member order, random whitespace, alternative spellings of integral numbers) give the same bytes; every single-leaf edit gives different bytes (collision set); non-integral numbers are refused; DSSE: SetPayload/Sign/Dump, payload strictly valid JSON, decodes to the set value, LoadMetadata returns the set value and verifies. Read-only calls (ValidateMetablock, GetPayload, Sigs) between signing and verifying must leave the signed bytes and the envelope's payload object as they were. A fifth of the values also with absent (nil) collections: sign, dump, load, verify in both wrappers (no reference bytes there). Re-used objects: after a first Sign+Verify (Metablock) / SetPayload+Sign+Dump (Envelope) the metadata is changed in place through a map or slice it shares with the caller (new product path, new by-product, pubkeys[0], new layout key); the signed bytes must be the canonical JSON of the changed content, the old signature must not verify any more, a new one must verify on a reloaded copy, and a second SetPayload on the same envelope must carry the changed content. " +
 			"non-trivial = value contains a hostile string or an optional member; distinct = hash of the value",
 		Assumptions: []string{"strings are valid UTF-8 (JSON cannot carry anything else)", "all collections are non-nil, so the reference rendering is fixed by the specification's field table (harness/gen/meta.go)", "for DSSE, refusing non-integral numbers is not demanded"},
 		Workers:     func(string) int { return 16 },
 		Floors: func(string) map[string]int64 {
-			return map[string]int64{"byte_equal_to_reference": 500, "non_integral_refused": 10, "dsse_payload_valid_and_roundtrips": 500, "single_edit_variants_distinct": 5000, "reused_objects_follow_in_place_changes": 500}
+			return map[string]int64{"byte_equal_to_reference": 500, "non_integral_refused": 10, "dsse_payload_valid_and_roundtrips": 500, "single_edit_variants_distinct": 5000, "reused_objects_follow_in_place_changes": 500, "read_only_calls_left_signed_bytes_alone": 500, "absent_collections_roundtrip": 100}
 		},
 		Run:      runC11,
 		TimeoutS: func(t string) int { return 900 },
